@@ -28,6 +28,17 @@ def gen_cases(rng, tier, rnd):
                 cases.append({'spec': spec, 'rank': rank, 'abs': hx(c), 'log': rng.random() < 0.3})
     while len(cases) < n:
         r = rng.random()
+        if r < 0.006:
+            a = genfa.anchor_probe_dfa(rng)
+            spec, rank = genfa.rename(a, rng)
+            cases.append({'spec': spec, 'rank': rank, 'abs': hx(a), 'log': False, 'ops': ['dfa_quotient', 'dfa_hopfcroft']})
+            continue
+        if r < 0.012:
+            # large inputs: dozens of Nerode classes, classes that are split late (table filling is skipped for cost)
+            a = genfa.abstract_dfa(rng, 30, 70, 2, 4, unreachable_max=3, acc_ratios=(0.3, 0.5, 0.5, 0.7))
+            spec, rank = genfa.rename(a, rng)
+            cases.append({'spec': spec, 'rank': rank, 'abs': hx(a), 'log': False, 'ops': ['dfa_quotient', 'dfa_hopfcroft']})
+            continue
         if r < 0.04:
             a = genfa.abstract_dfa(rng, 12, 22, 3, 4, unreachable_max=2, acc_ratios=(0.3, 0.5, 0.5, 0.7))     # many Nerode classes
         elif r < 0.38:
@@ -68,7 +79,7 @@ def run_case(case, env):
         c_in = fa.canon_of(snap0)
         call_all, call_reach, n_reach, _ = fa.nerode_counts(snap0)
         nontrivial = nontrivial or (call_all >= 2 and call_all < len(snap0['Q']))
-        for op in OPS:
+        for op in case.get('ops', OPS):
             out['evals'] += 1
             set_knobs(logging=case.get('log', False) and op == 'dfa_hopfcroft')
             st, val, ticks = call(env, getattr(da, op), D)
@@ -119,6 +130,8 @@ def run_case(case, env):
         out['probes']['one_state'] = 1
     if call_all >= 12:
         out['probes']['at_least_12_classes'] = 1
+    if call_all >= 30:
+        out['probes']['at_least_30_classes'] = 1
     if not snap0['Sigma']:
         out['probes']['sigma_empty'] = 1
     if case.get('log'):
